@@ -55,6 +55,7 @@ Topo(t) ==
       [] t = "hook3"   -> << <<0,0,0>>, <<1,0,0>>, <<2,1,0>> >>
       [] t = "tee4"    -> << <<0,0,0>>, <<1,0,0>>, <<2,0,0>>, <<1,0,1>> >>
       [] t = "tee4b"   -> << <<0,0,0>>, <<2,0,0>>, <<1,0,0>>, <<1,0,1>> >>   \* the livelock model of the pinned commit
+      [] t = "row4"    -> << <<0,0,0>>, <<1,0,0>>, <<2,0,0>>, <<3,0,0>> >>
       [] t = "sq4"     -> << <<0,0,0>>, <<1,0,0>>, <<0,1,0>>, <<1,1,0>> >>
       [] t = "zig4"    -> << <<0,0,0>>, <<1,0,0>>, <<1,1,0>>, <<2,1,0>> >>
 
